@@ -129,7 +129,11 @@ pub fn large_bases(c: &Collector, fills: Vec<Fill>) -> Vec<Base> {
         charsets: default_charsets(),
         hidden_cursor: false,
     };
-    let b = gen_bases(c, &spec);
+    let mut b = gen_bases(c, &spec);
+    if !c.thorough() {
+        // quick tier: every 5th of them (the thorough tier takes all)
+        b = b.into_iter().step_by(5).collect();
+    }
     c.count("large_geometry_bases", b.len() as u64);
     b
 }
